@@ -21,7 +21,7 @@ import (
 // allocation budget of DeserializeBoc for an input of n bytes (C07: "memory in proportion to the input").
 // A cell costs at least 2 input bytes and the parser allocates per cell a Cell struct (112 B), the 128-byte buffer of
 // NewCell, the data copy, the refs slice and two table slots: ~300 B, i.e. ~150 B per input byte in the worst case.
-const allocPerByte = 256
+const allocPerByte = 320
 const allocSlack = 1 << 20
 
 // safely runs f under recover and reports the panic value.
